@@ -541,7 +541,7 @@ def template(stream, idx, props=("C01",), mode="ref", prefix="gen"):
 def templates_for(prop, cfg, count=None):
     """the first `count` programs of stream cfg.seed whose class is `prop` (names stay `gen.<stream>.<idx>`)"""
     if count is None:
-        count = 16 if cfg.tier == "quick" else 160
+        count = 16 if cfg.tier == "quick" else 64
     out, idx = [], 0
     while len(out) < count and idx < 40 * count:
         steps = gen_program(cfg.seed, idx)
